@@ -68,6 +68,9 @@ type _refKey struct {
 	kind reflect.Kind
 	// length of a slice: s[:1] and s[:2] start at the same address but are different lists
 	length int
+	// type of the value: a struct and its first field, or two values of different zero-size types, share an
+	// address and a kind but are different objects
+	typ reflect.Type
 }
 
 func refTag(tag byte) bool {
@@ -122,7 +125,7 @@ func (e *Encoder) checkEncodeRefMap(v reflect.Value) (int, bool) {
 		return 0, false
 	}
 
-	key := _refKey{addr: addr, kind: kind}
+	key := _refKey{addr: addr, kind: kind, typ: tgt.Type()}
 	if kind == reflect.Slice {
 		key.length = tgt.Len()
 	}
